@@ -7,7 +7,7 @@ From CTEGen Require Import BdlTypes.
 Import ListNotations.
 Local Open Scope N_scope.
 
-Definition str := list N.
+Notation str := (list N) (only parsing).
 
 (* ---------- Coq string literals (UTF-8 bytes) -> code points ---------- *)
 Fixpoint bytes_of (s : string) : list N :=
